@@ -19,7 +19,7 @@ use std::thread;
 use std::time::Duration;
 
 use data_encoding::{Encoding, HEXLOWER_PERMISSIVE};
-use yaml_rust::YamlLoader;
+use yaml_rust::{Yaml, YamlLoader};
 
 use crate::config::ServerConfig;
 use crate::config::{DEFAULT_BATCH_SIZE, DEFAULT_STATUS_INTERVAL};
@@ -52,6 +52,16 @@ pub struct FileConfig {
     fault_percentage: u8,
     num_workers: usize,
     persist_dir: Option<PathBuf>,
+}
+
+/// Convert a YAML integer to the setting's own type, refusing (not wrapping) values that do
+/// not fit, e.g. `port: 70000` or `batch_size: 300`.
+fn checked_int<T: TryFrom<i64>>(key: &str, value: &Yaml) -> T {
+    let val = value
+        .as_i64()
+        .unwrap_or_else(|| panic!("{} value invalid: {:?}", key, value));
+
+    T::try_from(val).unwrap_or_else(|_| panic!("{} value out of range: {}", key, val))
 }
 
 impl FileConfig {
@@ -90,9 +100,9 @@ impl FileConfig {
 
         for (key, value) in cfg[0].as_hash().unwrap() {
             match key.as_str().unwrap() {
-                "port" => config.port = value.as_i64().unwrap() as u16,
+                "port" => config.port = checked_int("port", value),
                 "interface" => config.interface = value.as_str().unwrap().to_string(),
-                "batch_size" => config.batch_size = value.as_i64().unwrap() as u8,
+                "batch_size" => config.batch_size = checked_int("batch_size", value),
                 "seed" => {
                     let val = value.as_str().unwrap().to_string();
                     config.seed = HEX
@@ -100,8 +110,8 @@ impl FileConfig {
                         .expect("seed value invalid; 'seed' must be a valid hex value");
                 }
                 "status_interval" => {
-                    let val = value.as_i64().expect("status_interval value invalid");
-                    config.status_interval = Duration::from_secs(val as u64)
+                    let val: u64 = checked_int("status_interval", value);
+                    config.status_interval = Duration::from_secs(val)
                 }
                 "kms_protection" => {
                     let val =
@@ -111,7 +121,7 @@ impl FileConfig {
                     config.kms_protection = val
                 }
                 "health_check_port" => {
-                    let val = value.as_i64().unwrap() as u16;
+                    let val: u16 = checked_int("health_check_port", value);
                     config.health_check_port = Some(val);
                 }
                 "client_stats" => {
@@ -123,11 +133,11 @@ impl FileConfig {
                     config.persist_dir = val;
                 }
                 "fault_percentage" => {
-                    let val = value.as_i64().unwrap() as u8;
+                    let val: u8 = checked_int("fault_percentage", value);
                     config.fault_percentage = val;
                 }
                 "num_workers" => {
-                    let val = value.as_i64().unwrap() as usize;
+                    let val: usize = checked_int("num_workers", value);
                     config.num_workers = val;
                 }
                 unknown => {
